@@ -138,7 +138,25 @@ def run(ctx):
             # kid behaviour
             had = k.kid
             lines.append(f"key.ensurekid {J.enc_key(k)}")
+            # exports taken BEFORE the kid is assigned must not pin what later exports show
+            try:
+                k.as_dict(private=False)
+                k.as_dict()
+            except Exception:  # noqa: BLE001
+                pass
             k.ensure_kid()
+            exports = {"as_dict()": lambda: k.as_dict(), "as_dict(private=False)": lambda: k.as_dict(private=False),
+                       "KeySet.as_dict()": lambda: KeySet([k]).as_dict()["keys"][0]}
+            if k.key_type != "oct":
+                exports["KeySet.as_dict(private=False)"] = lambda: KeySet([k]).as_dict(private=False)["keys"][0]
+            for ename, f in exports.items():
+                try:
+                    shown = f().get("kid")
+                except Exception:  # noqa: BLE001 - e.g. private=False on an oct key
+                    continue
+                if shown != k.kid:
+                    ctx.report(f"{ename} shows kid {shown!r} while the key's kid is {k.kid!r} (export taken before the kid was assigned is replayed?)",
+                               {"key": label, "representation": rname, "export": ename}, "kid:export-stale")
             impls.append(lambda k=k: dict(k.dict_value))
             if had is not None and k.kid != had:
                 ctx.report("ensure_kid overwrote an existing kid", {"key": label, "representation": rname, "before": had, "after": k.kid}, "kid:overwritten")
